@@ -153,7 +153,7 @@ theorem firstPh_D (n : Nat) (rest : Toks) : firstPh (D n ++ rest) = some ([], ra
     have e : (raw n ++ [Tok.suf]) ++ rest = Tok.sep :: (phA ++ (ws n ++ (phA ++ (Tok.suf :: rest)))) := by
       simp [raw]
     rw [e]
-    simp only [findEnd, findEnd_phA, findEnd_ws, Option.map_map, Option.map_some]
+    simp only [findEnd, findEnd_phA, findEnd_ws, Option.map_some]
     simp [raw]
   exact firstPh_of (s := D n ++ rest) (before := []) (afterPre := (raw n ++ [Tok.suf]) ++ rest) rfl h
 
